@@ -64,6 +64,72 @@ type tconn struct {
 
 func pat(seed, k int) byte { return byte((seed*31 + k*7 + 3) % 251) }
 
+// slowUp: a listener with backlog 1 that is full and does not accept until released, so that a dial
+// to it hangs in the TCP handshake (SYN retransmission) - the window in which a proxy is stopped
+// while its accept loop is still dialling the upstream
+type slowUp struct {
+	fd      int
+	fillers []net.Conn
+	release chan struct{}
+	peers   []int
+	mu      sync.Mutex
+}
+
+func newSlowUp(port int) (*slowUp, error) {
+	fd, err := syscall.Socket(syscall.AF_INET, syscall.SOCK_STREAM, 0)
+	if err != nil {
+		return nil, err
+	}
+	syscall.SetsockoptInt(fd, syscall.SOL_SOCKET, syscall.SO_REUSEADDR, 1)
+	if err = syscall.Bind(fd, &syscall.SockaddrInet4{Port: port, Addr: [4]byte{127, 0, 0, 1}}); err != nil {
+		syscall.Close(fd)
+		return nil, err
+	}
+	if err = syscall.Listen(fd, 1); err != nil {
+		syscall.Close(fd)
+		return nil, err
+	}
+	u := &slowUp{fd: fd, release: make(chan struct{})}
+	for i := 0; i < 64; i++ {
+		c, err := net.DialTimeout("tcp", fmt.Sprintf("127.0.0.1:%d", port), 300*time.Millisecond)
+		if err != nil {
+			break
+		}
+		u.fillers = append(u.fillers, c)
+	}
+	go func() {
+		<-u.release
+		for {
+			nfd, _, err := syscall.Accept(u.fd)
+			if err != nil {
+				return
+			}
+			u.mu.Lock()
+			u.peers = append(u.peers, nfd)
+			u.mu.Unlock()
+		}
+	}()
+	return u, nil
+}
+
+func (u *slowUp) close() {
+	select {
+	case <-u.release:
+	default:
+		close(u.release)
+	}
+	syscall.Shutdown(u.fd, syscall.SHUT_RDWR)
+	syscall.Close(u.fd)
+	for _, c := range u.fillers {
+		c.Close()
+	}
+	u.mu.Lock()
+	for _, p := range u.peers {
+		syscall.Close(p)
+	}
+	u.mu.Unlock()
+}
+
 type upstream struct {
 	ln      net.Listener
 	mode    string
@@ -131,6 +197,12 @@ func runTCPCase(ops []tcpOp) []tcpRes {
 	h := server.Routes()
 	conns := map[string]*tconn{}
 	ups := map[string]*upstream{}
+	slows := map[string]*slowUp{}
+	defer func() {
+		for _, u := range slows {
+			u.close()
+		}
+	}()
 	res := make([]tcpRes, 0, len(ops))
 	defer func() {
 		for _, c := range conns {
@@ -167,6 +239,28 @@ func runTCPCase(ops []tcpOp) []tcpRes {
 			ups[op.ID] = u
 			go u.serve()
 			r.OK = true
+		case "slowupstream":
+			u, err := newSlowUp(op.Port)
+			if err != nil {
+				r.Err = err.Error()
+				break
+			}
+			slows[op.ID] = u
+			r.OK = len(u.fillers) < 60
+			r.Got = len(u.fillers)
+		case "uprelease":
+			if u := slows[op.ID]; u != nil {
+				d := time.Duration(op.Ms) * time.Millisecond
+				go func() {
+					time.Sleep(d)
+					select {
+					case <-u.release:
+					default:
+						close(u.release)
+					}
+				}()
+				r.OK = true
+			}
 		case "upstop":
 			if u := ups[op.ID]; u != nil {
 				u.ln.Close()
